@@ -1,9 +1,11 @@
 import Prism.Proofs.C04
+import Prism.Proofs.C04Compose
 import Prism.Proofs.C04Float
 
 #print axioms Prism.C04_linear_part_matches_reference
 #print axioms Prism.C04_adaptation_matrices
 #print axioms Prism.C04_alpha
 #print axioms Prism.C04_same_space_no_adaptation
+#print axioms Prism.C04_value_at_encoder
 #print axioms Prism.C04_pipeline_linear
 #print axioms Prism.C04_same_space_reference
